@@ -171,7 +171,7 @@ func DumpIDL(ast *parser.Thrift) (string, error) {
 						required = "required "
 					}
 					sb.writeString(fmt.Sprintf("%d: %s%s %s", th.ID, required, typeName(th.Type), th.Name))
-					if i != len(f.Arguments)-1 {
+					if i != len(f.Throws)-1 {
 						sb.writeString(", ")
 					}
 				}
